@@ -31,6 +31,15 @@ func (e *Engine) pureReads(fn *ssa.Function) map[string]string {
 	res := map[string]string{}
 	e.readsCache[fn] = res // cycle guard: recursion sees the partial set, fixpoint below
 	so := e.effSo
+	if con := e.contractFor(fn); con != nil && con.HasReads {
+		// declared read set of an opaque function (assumption T5: it depends on nothing else)
+		for _, r := range con.Reads {
+			for k, s := range e.resolveReads(con, r) {
+				res[k] = s
+			}
+		}
+		return res
+	}
 	for changed := true; changed; {
 		changed = false
 		add := func(k, s string) {
@@ -64,8 +73,8 @@ func (e *Engine) pureReads(fn *ssa.Function) map[string]string {
 				case *ssa.Lookup:
 					if mt, ok := types.Unalias(x.X.Type()).Underlying().(*types.Map); ok {
 						ks, vs := so.Sort(mt.Key()), so.Sort(mt.Elem())
-						add("Md:"+ks, ArraySort("Ref", ArraySort(ks, "Bool")))
-						add("Mv:"+ks+":"+vs, ArraySort("Ref", ArraySort(ks, vs)))
+						add(mapDomKey(ks, vs), ArraySort("Ref", ArraySort(ks, "Bool")))
+						add(mapValKey(ks, vs), ArraySort("Ref", ArraySort(ks, vs)))
 					}
 				case *ssa.UnOp:
 					if x.Op.String() == "*" {
@@ -106,8 +115,8 @@ func (e *Engine) pureReads(fn *ssa.Function) map[string]string {
 							add(k, s)
 						}
 					} else if b, ok := x.Call.Value.(*ssa.Builtin); ok && b.Name() == "len" {
-						if _, isMap := types.Unalias(x.Call.Args[0].Type()).Underlying().(*types.Map); isMap {
-							add("Mc", ArraySort("Ref", "Int"))
+						if mt, isMap := types.Unalias(x.Call.Args[0].Type()).Underlying().(*types.Map); isMap {
+							add(mapCardKey(so.Sort(mt.Key()), so.Sort(mt.Elem())), ArraySort("Ref", "Int"))
 						}
 					}
 				}
